@@ -314,6 +314,7 @@ func leakVerdict(gs []gor) (certain bool, loopGone bool, why string) {
 	if !loop.blockedOnClientMutex() {
 		return false, false, "report loop is in state " + loop.state
 	}
+	waiter := -1
 	for _, g := range gs {
 		if g.id == loop.id || !g.inClient() {
 			continue
@@ -321,7 +322,16 @@ func leakVerdict(gs []gor) (certain bool, loopGone bool, why string) {
 		if g.blockedOnClientMutex() || g.has(clientPkg+"NewClient.func1") {
 			continue
 		}
+		if strings.HasPrefix(g.state, "IO wait") && g.has(clientPkg+"(*Client).staticServerSync") {
+			// a sync attempt that waits for its server: it cannot do anything - in
+			// particular not release a mutex - before that server speaks
+			waiter = g.id
+			continue
+		}
 		return false, false, fmt.Sprintf("goroutine %d [%s] is inside package client (%s) and may hold the mutex", g.id, g.state, g.frames[0])
+	}
+	if waiter >= 0 {
+		return true, false, fmt.Sprintf("report loop (goroutine %d) is parked in sync.(*Mutex).Lock; apart from goroutines parked on the same mutex the only goroutines inside package client are sync attempts waiting for a server reply (e.g. goroutine %d in staticServerSync, IO wait): the mutex stays locked for as long as that server stays silent", loop.id, waiter)
 	}
 	return true, false, fmt.Sprintf("report loop (goroutine %d) is parked in sync.(*Mutex).Lock and no goroutine that could hold the client mutex exists", loop.id)
 }
@@ -367,4 +377,12 @@ func probeLock(c *client.Client) (free bool, leaked bool, detail string) {
 		}
 		time.Sleep(300 * time.Microsecond)
 	}
+}
+
+// lockKey: the violation class for a mutex that cannot be taken.
+func lockKey(detail string) string {
+	if strings.Contains(detail, "waiting for a server reply") {
+		return "client-lock-held-while-waiting-for-server"
+	}
+	return "client-lock-leaked-after-sync"
 }
